@@ -227,13 +227,19 @@ def vertex_face_indices(vertex_count, faces, faces_sparse):
     """
     # Create 2D array with row for each vertex and
     # length of max number of faces for a vertex
+    # a face which repeats a vertex still only contains it once
+    faces = np.asanyarray(faces).view(np.ndarray)
+    first = np.ones(faces.shape, dtype=bool)
+    first[:, 1] = faces[:, 1] != faces[:, 0]
+    first[:, 2] = (faces[:, 2] != faces[:, 0]) & (faces[:, 2] != faces[:, 1])
+    corners = faces[first]
     try:
-        counts = np.bincount(faces.flatten(), minlength=vertex_count)
+        counts = np.bincount(corners, minlength=vertex_count)
     except TypeError:
         # casting failed on 32 bit Windows
         log.warning("casting failed, falling back!")
         # fall back to np.unique (usually ~35x slower than bincount)
-        counts = np.unique(faces.flatten(), return_counts=True)[1]
+        counts = np.unique(corners, return_counts=True)[1]
     assert len(counts) == vertex_count
     assert faces.max() < vertex_count
 
@@ -260,11 +266,11 @@ def vertex_face_indices(vertex_count, faces, faces_sparse):
             + "mesh probably has degenerate faces",
             exc_info=True,
         )
-        sort = np.zeros(faces.size, dtype=np.int64)
+        sort = np.zeros(counts.sum(), dtype=np.int64)
         flat = faces.flatten()
         for v in range(vertex_count):
             # assign the data in order
-            sort[starts[v] : starts[v] + counts[v]] = (np.where(flat == v)[0] // 3)[::-1]
+            sort[starts[v] : starts[v] + counts[v]] = np.unique(np.where(flat == v)[0] // 3)[::-1]
         padded[padded == 0] = sort
     return padded
 
